@@ -66,6 +66,7 @@ def case_strategy(draw):
         "matcher": None if it == "MATCHED_INSTANCE" else mcfg(),
         "matcher2": None if it == "MATCHED_INSTANCE" else mcfg(),
         "gmetrics": gms,
+        "layout": draw(st.sampled_from(["C", "C", "F", "neg", "T"])),
         "handler": draw(handler_cfg(hm)) if draw(st.integers(0, 3)) else None,
         "relabel_pred": draw(st.lists(st.sampled_from([1, 2, 3, 256, 512]), min_size=n, max_size=n)),
         "relabel_ref": draw(st.lists(st.sampled_from([1, 2, 3, 256, 512]), min_size=n, max_size=n)),
@@ -94,8 +95,8 @@ def _run(pred, ref, case, mkey):
 
 def check(case, stats):
     lib.run_primes(case.get("primes"))
-    pred = np.array(case["pred"]).astype(case["dtype"])
-    ref = np.array(case["ref"]).astype(case["dtype"])
+    pred = gen.with_layout(np.array(case["pred"]).astype(case["dtype"]), case.get("layout", "C"))
+    ref = gen.with_layout(np.array(case["ref"]).astype(case["dtype"]), case.get("layout", "C"))
     shape = ref.shape
     P, R = M.foreground(pred), M.foreground(ref)
     hc = case["handler"]
@@ -120,7 +121,7 @@ def check(case, stats):
             from skimage.morphology import skeletonize
 
             rb, pb = ref != 0, pred != 0
-            sr, sp = skeletonize(rb) != 0, skeletonize(pb) != 0
+            sr, sp = skeletonize(np.ascontiguousarray(rb)) != 0, skeletonize(np.ascontiguousarray(pb)) != 0
             if sr.sum() == 0 or sp.sum() == 0:
                 continue
             tprec = int((sr & pb).sum()) / int(sr.sum())
